@@ -82,12 +82,22 @@ func TestC20Health(t *testing.T) {
 		return
 	}
 	st := &c20State{f: f, backups: map[string][]byte{}}
+	transportFailed := false
 	health := func() (int, string) {
-		resp, err := f.Get("any.verif.test", "/health", "verif@harness.test")
-		if err != nil {
-			return 0, err.Error()
+		// a transport error (loaded machine) is not an answer: ask again
+		var last string
+		for try := 0; try < 6; try++ {
+			resp, err := f.Get("any.verif.test", "/health", "verif@harness.test")
+			if err == nil && resp.Status != 0 {
+				return resp.Status, string(resp.Body)
+			}
+			if err != nil {
+				last = err.Error()
+			}
+			time.Sleep(200 * time.Millisecond)
 		}
-		return resp.Status, string(resp.Body)
+		transportFailed = true
+		return 0, last
 	}
 	// sanity: the pristine fixture is healthy
 	if code, body := health(); code != 200 {
@@ -340,6 +350,11 @@ func TestC20Health(t *testing.T) {
 			continue
 		}
 		code, body := health()
+		if transportFailed {
+			r.Inconcl("/health could not be reached: %s", truncateStr(body, 200))
+			st.restore()
+			return
+		}
 		r.Eval(1)
 		info := map[string]any{"breaks": set, "status": code, "body": truncateStr(body, 600)}
 		key := fmt.Sprint(set)
@@ -396,7 +411,10 @@ func TestC20Health(t *testing.T) {
 			}
 		}
 		st.restore()
-		if code2, body2 := health(); code2 != 200 {
+		if code2, body2 := health(); transportFailed {
+			r.Inconcl("/health could not be reached: %s", truncateStr(body2, 200))
+			return
+		} else if code2 != 200 {
 			r.Violate("health-not-restored", info, "after restoring the directories /health is %d: %s", code2, truncateStr(body2, 300))
 			return
 		}
